@@ -175,6 +175,23 @@ type Car struct {
 	Name string
 }
 
+// localCar returns a value of a function-local type named Car: reflect prints it exactly like the package-level
+// Car ("...Car"), but it is a different type with its fields in another order.
+func localCar(v int) interface{} {
+	type Car struct {
+		Name string
+		Slug string
+		ID   int
+	}
+	return Car{Name: "local", Slug: "local-car-" + fmt.Sprint(v), ID: 70 + v}
+}
+
+// Page has a Slug: pathFor(page) = /pages/hello-world-0
+type Page struct {
+	Slug  string
+	Title string
+}
+
 type Inner struct {
 	Label string
 	Depth int
@@ -240,6 +257,8 @@ func (rt *Runtime) plainData() map[string]interface{} {
 		"rx":   []string{"^a", "c!$", "^x|y$"}[v%3],
 		"f64":  1.5,
 		"car":  Car{ID: 7 + v, Name: "beetle"},
+		"car2": localCar(v), // another struct type that PRINTS as harness.Car (declared inside a function): ID first
+		"page": Page{Slug: "hello-world-" + fmt.Sprint(v), Title: "Hello"},
 		"many": []int{0, 1, 2, 3, 4, 5, 6, 7, 8, 9, 10, 11, 12, 13, 14, 15, 16, 17, 18, 19},
 		"n1":   3 + v, "n2": 7, "s1": "ab<c" + strings.Repeat("!", v), "s2": "x y", "b1": true, "b0": false,
 		"xs":  []int{4 + v, 5, 6},
